@@ -144,6 +144,8 @@ def generate(family, rng, tier):
         narrow = ro and rng.random() < 0.4
         p.update(dw_m=32, depth=depth, bursting=bursting, read_only=ro, mem_width=rng.choice([8, 16]) if narrow else 32,
                  init=[rng.getrandbits(32) for _ in range(rng.choice([0, depth // 2, depth]))])
+        if not narrow and rng.random() < 0.25:
+            p["hint"] = [rng.getrandbits(1), rng.choice([None, False, True])]      # [bus_read_only hint on the Memory, read_only argument]
         ops = gen_ops(rng, n, 4, lambda r: r.randrange(depth) + (depth * r.choice([0, 0, 1, 4])), bursts=bursting)
     elif family == "wb2csr":
         p.update(dw_m=32, register=rng.random() < 0.5, depth=rng.choice([8, 16, 64]))
@@ -232,10 +234,19 @@ def build(p):
         if p["mem_width"] != 32:
             mem = Memory(p["mem_width"], p["depth"], init=[x & ((1 << p["mem_width"]) - 1) for x in p["init"]])
             m.submodules.dut = wishbone.SRAM(mem, read_only=True, bus=mb)
+        elif p.get("hint") is not None:
+            # a Memory object that carries the bus_read_only hint, with the read_only argument None / False / True: the argument wins, the
+            # hint only decides when the argument is None
+            mem = Memory(32, p["depth"], init=p["init"] or None)
+            mem.bus_read_only = bool(p["hint"][0])
+            m.submodules.dut = wishbone.SRAM(mem, read_only=p["hint"][1], bus=mb)
         else:
             m.submodules.dut = wishbone.SRAM(p["depth"] * 4, read_only=p["read_only"], init=p["init"] or None, bus=mb)
         depth = p["depth"]
-        info.update(store="dut", read_only=p["read_only"] or p["mem_width"] != 32)
+        ro_eff = p["read_only"]
+        if p.get("hint") is not None and p["mem_width"] == 32:
+            ro_eff = bool(p["hint"][0]) if p["hint"][1] is None else bool(p["hint"][1])
+        info.update(store="dut", read_only=ro_eff or p["mem_width"] != 32)
         mw = p["mem_width"]
         init = list(p["init"]) + [0] * (depth - len(p["init"]))
 
